@@ -1,6 +1,8 @@
 package main
 
 import (
+	"strconv"
+	"os"
 	"fmt"
 	"go/constant"
 	"go/token"
@@ -74,6 +76,10 @@ func (x *Exec) varSort(name string) string {
 	if s, ok := x.vc.heapSort[name]; ok {
 		return s
 	}
+	if name == allocVar {
+		x.vc.heapSort[allocVar] = SInt
+		return SInt
+	}
 	if s, ok := x.prog.heapSorts[name]; ok {
 		return s
 	}
@@ -110,7 +116,7 @@ func (x *Exec) heapRefsAllocated(name, heap, alloc string) {
 		case *types.Slice:
 			return []string{app("s.arr", sel)}
 		case *types.Struct:
-			if depth >= 2 || isTimeTime(t) {
+			if depth >= nestedBoundDepth || isTimeTime(t) {
 				return nil
 			}
 			si := x.ss.structInfoOf(t)
@@ -161,6 +167,15 @@ func (x *Exec) set(st *State, name string, t string) {
 		}
 	}
 }
+
+// how deep into struct-typed heap values the "references are below the allocation counter" axiom looks
+var nestedBoundDepth = func() int {
+	if v := os.Getenv("GOVC_NESTED_BOUNDS"); v != "" {
+		n, _ := strconv.Atoi(v)
+		return n
+	}
+	return 2
+}()
 
 func simpleConst(s string) bool { return s != "" && len(s) <= 60 && !strings.ContainsAny(s, "( ") }
 
